@@ -96,6 +96,10 @@ ConvMism(o) ==
              \* (behind a Linux SLL header the protocol type decides whether there is an ether type at all: not constrained here)
              (IF LL # <<>> /\ LL[Len(LL)].k # "sll" THEN LET p == LL[Len(LL)].p IN
                                 IF p.k = "ether" THEN (IF ~SameRange(c.epay, p) \/ (p.inc \in {0, 1} /\ c.epay.inc # p.inc) THEN {"conv.ether_payload"} ELSE {})
+                                                      \* its length source: a MACsec short length ANYWHERE in the stack of tags limited these bytes
+                                                      \cup (IF c.epay.k = "ether" /\ c.epay.src # (IF \E i \in 1..Len(LL) : LL[i].k = "macsec" /\ LL[i].p.src = "MacsecShortLength"
+                                                                                                  THEN "MacsecShortLength" ELSE "Slice")
+                                                            THEN {"conv.ether_payload.len_source"} ELSE {})
                                 ELSE (IF c.epay.k # "none" THEN {"conv.ether_payload"} ELSE {})
               ELSE {})
              \* ip_payload(): payload of the IP layer
